@@ -333,6 +333,9 @@ fn optimality<T: Sc>(w: &World<T>, params: &[T], coeff: &[T], rnorm: f64) -> Opt
     let smin = *sv.last().unwrap();
     let eps = w.eps.map(|e| e.f().abs()).unwrap_or(2.0 * T::u());
     let kmax = if T::NAME == "f64" { 1e7 } else { 1e3 };
+    if smin <= eps {
+        return Opt::Gated("truncated_singular_value_at_final_state");
+    }
     if smin <= 4.0 * eps || smin <= 0.0 {
         return Opt::Gated("near_truncation_threshold");
     }
